@@ -1,5 +1,8 @@
 package art
 
 func NewAlphaSortedTree[K chars, V any]() Tree[K, V] {
+	if verifRecording {
+		return verifWrap[K, V]("alpha", &alphaSortedTree[K, V]{}, nil)
+	}
 	return &alphaSortedTree[K, V]{}
 }
